@@ -718,7 +718,8 @@ outerNew:
 				}
 			}
 
-			if cursor.Hyperlink != next.Hyperlink {
+			if cursor.Hyperlink != next.Hyperlink ||
+				(next.Hyperlink != "" && cursor.HyperlinkParams != next.HyperlinkParams) {
 				link := next.Hyperlink
 				linkPs := next.HyperlinkParams
 				if link == "" {
